@@ -239,6 +239,7 @@ def run(ctx):
     ctx.gen_step("qubotools", T.translate, "C13_gen",
                  "harness/translate_qubotools.py (ast -> Gallina printer: numpy/scipy matrix expressions of qubo_tools.py "
                  "into the combinators of coq/theories/PyQubo.v; kinds of values, let-sequencing, ownership filter)")
+    from props import pysem; pysem.run(ctx, pysem.GROUPS_FOR.get(ctx.pid, ()))
     rng = ctx.rng
     n_mat = 60 if ctx.quick else 2000
     n_vec = 6 if ctx.quick else 20
